@@ -36,7 +36,7 @@ TEXT = {
     'C09': ("Lean theorems: is_for_me of the model equals the documented reception condition for every address and frame; frames not for me "
             "change nothing; emitted id/prefix are the documented ones and are accepted by the mirrored address; Functional sends restricted to single frames.", ""),
     'C10': ('The network-level theorems of C01 hold with both directions active at once (they are stated for arbitrary schedules of both layers), plus the mailbox discipline: when every pass that reads also transmits (full and transmit-only passes, the schedule space of the property) a received Flow Control is consumed by the next transmit pass before any other frame is read (C10.fc_never_lost, mailbox_inv_reachable), frame conditions between the directions, no wedged state in full duplex; liveness with BOTH directions active at once on the canonical schedule: both payloads are delivered, both requests succeed, no error, for every block size / STmin / mode / link size when the four timeouts cover the exchange (C10live.duplex_completes_partial, progress_each_round: a potential strictly decreases every round), with the sharp timeouts (N_Cr 3 ticks, N_Bs 2 ticks) for BS 0 / STmin 0 and a 1600-configuration table; the one-directional timing hypotheses are proved NOT sufficient in duplex (a layer that sends and receives leaves process() after the pass that follows a Flow Control; frames behind it wait one more round); exhaustive-interleaving correspondence of the two-layer model against two real layers.',
-            "Composed progress is proved for the canonical schedule (C10live); 'no interleaving reaches a stuck state' for ARBITRARY interleavings is proved per endpoint and explored exhaustively on short interleavings; the sharp-timeout duplex statement for all parameters is kept as a stated conjecture (C10live_statement)."),
+            "'No interleaving reaches a stuck state' is PROVED for arbitrary interleavings (C10nostuck.no_stuck_state_partial / _nops: after ANY schedule of full passes, transmit-only passes, partial deliveries and ticks in which the timeouts are not exhausted, the canonical continuation completes both transfers within a bound given by a potential that no operation increases), for every block size / STmin / mode; when a separation time is > 0 the tick durations of the schedule must share a unit with the continuation tick (with STmin 0 on both sides the statement holds as written, no_stuck_state_stmin0); the sharp-timeout duplex statement for all parameters is kept as a stated conjecture (C10live_statement)."),
     'C11': ('Lean theorems: one dropped or duplicated frame anywhere in a multi-message exchange leaves deliveries = sent list minus at most the hit message (twice for a duplicated Single Frame), never truncated/merged/corrupted (c11_never_corrupt, contained_any_aborts, message_fate), the loss of a multi-frame message is reported (loss_detected), later messages are delivered normally (c11_rest_normal), also across timeouts (C11abort) and sequence-number wrap; ignored frames never move the N_Cr deadline (C07ign); plus exhaustive single-fault enumeration on real layers vs the model.',
             "Return to idle 'within the configured timeouts' is derived from the timer invariants per endpoint and checked on the virtual clock."),
     'C12': ("Lean theorems: request conservation (queued + active + completed is a permutation of accepted ids over every operation), hence "
